@@ -460,7 +460,7 @@ theorem lwf_toChain {L : Ledger} (hl : LWF L) {bm : BlockMeta} {t : Tx} {cr : Li
       exact ⟨(t, some bm), (mem_known_toChain hs _).mpr (Or.inr rfl), this.symm⟩
     · exact ⟨q, (mem_known_toChain hs _).mpr (Or.inl ⟨hq, e⟩), rfl⟩
   have hperm := chainInsert_perm bm t L.chain hs
-  refine ⟨(chainInsert_heights bm t L.chain hl.heights).1, ?_, hl.creditKeys, ?_, ?_, ?_, ?_, ?_, ?_, ?_⟩
+  refine ⟨(chainInsert_heights bm t L.chain hl.heights).1, ?_, hl.creditKeys, ?_, ?_, ?_, ?_, ?_, ?_, ?_, hl.leaseKeys⟩
   · -- hashes
     have h0 := hl.hashes
     unfold known at h0 ⊢
